@@ -3,7 +3,7 @@
    This file contains only statements closed by `exact`, their assumptions and non-vacuity examples.
    Generated once by tools/genprops.py from the proved lemmas (statements restated verbatim). *)
 From Coq Require Import List NArith ZArith Bool Lia Sorting.Sorted.
-From Viv Require Import Model.Sched Model.SchedC Proofs.Sched_defs Proofs.Sched_clock_proofs Proofs.Sched_once_proofs Proofs.SchedC_witness.
+From Viv Require Import Model.Sched Model.SchedC Proofs.Sched_defs Proofs.Sched_clock_proofs Proofs.Sched_once_proofs Proofs.SchedC_witness Proofs.Sched_entry_proofs.
 Import ListNotations.
 Open Scope Z_scope.
 
@@ -155,6 +155,61 @@ Theorem C02_ts_refuted_pinned :
              (log cst cupd cw s').
 Proof. exact @ts_refuted_pinned. Qed.
 Print Assumptions C02_ts_refuted_pinned.
+
+(* THE INTERVALS START WHEN THE PROCESS ENTERED THE SIMULATION: a registered process without a front entry - one created by the previous batch - is, if invoked in this pass, invoked for an interval that starts at the current global time (for every variant, every user code and every batch application) *)
+Theorem C02_new_process_starts_now :
+  forall (Sg U W : Type) (poll : W -> pid -> Sg -> Z * W)
+           (cond : W -> pid -> Z -> Sg -> bool * W) (next : W -> pid -> Z -> Sg -> U * W)
+           (commit : Sg -> list pid -> list (pid * U) -> Sg * list pid) (vr : variant)
+           (ee : option Z) (endt : Z) (force : bool) (et : Z) (s s' : st Sg U W) 
+           (f' : bool) (et' : Z) (ok : bool) (p : pid) (start fin ts req now : Z) 
+           (view : Sg),
+         NoDup (procs Sg U W s) ->
+         iter Sg U W poll cond next commit vr ee endt force et s = (s', f', et', ok) ->
+         mem p (procs Sg U W s) = true ->
+         flook U (frt Sg U W s) p = None ->
+         In (EInvoke Sg p start fin ts req now view) (log Sg U W s') ->
+         ~ In (EInvoke Sg p start fin ts req now view) (log Sg U W s) ->
+         start = gt Sg U W s /\ now = gt Sg U W s.
+Proof. exact @new_process_starts_now. Qed.
+Print Assumptions C02_new_process_starts_now.
+
+(* ... and it is polled in that very pass (afterwards it has a front entry) *)
+Theorem C02_new_process_polled :
+  forall (Sg U W : Type) (poll : W -> pid -> Sg -> Z * W)
+           (cond : W -> pid -> Z -> Sg -> bool * W) (next : W -> pid -> Z -> Sg -> U * W)
+           (commit : Sg -> list pid -> list (pid * U) -> Sg * list pid) (vr : variant)
+           (ee : option Z) (endt : Z) (force : bool) (et : Z) (s s' : st Sg U W) 
+           (f' : bool) (et' : Z) (ok : bool) (p : pid),
+         iter Sg U W poll cond next commit vr ee endt force et s = (s', f', et', ok) ->
+         mem p (procs Sg U W s) = true ->
+         flook U (frt Sg U W s) p = None -> exists e : fe U, flook U (frt Sg U W s') p = Some e.
+Proof. exact @new_process_polled. Qed.
+Print Assumptions C02_new_process_polled.
+
+(* a process that is not registered has no front entry after a pass - whatever it had in flight - so one created again under the same path starts afresh *)
+Theorem C02_deleted_process_front_dropped :
+  forall (Sg U W : Type) (poll : W -> pid -> Sg -> Z * W)
+           (cond : W -> pid -> Z -> Sg -> bool * W) (next : W -> pid -> Z -> Sg -> U * W)
+           (commit : Sg -> list pid -> list (pid * U) -> Sg * list pid) (vr : variant)
+           (ee : option Z) (endt : Z) (force : bool) (et : Z) (s s' : st Sg U W) 
+           (f' : bool) (et' : Z) (ok : bool) (p : pid),
+         iter Sg U W poll cond next commit vr ee endt force et s = (s', f', et', ok) ->
+         mem p (procs Sg U W s) = false -> flook U (frt Sg U W s') p = None.
+Proof. exact @deleted_process_front_dropped. Qed.
+Print Assumptions C02_deleted_process_front_dropped.
+
+(* after a pass every front entry belongs to a process that was registered when the pass began *)
+Theorem C02_iter_front_owners :
+  forall (Sg U W : Type) (poll : W -> pid -> Sg -> Z * W)
+           (cond : W -> pid -> Z -> Sg -> bool * W) (next : W -> pid -> Z -> Sg -> U * W)
+           (commit : Sg -> list pid -> list (pid * U) -> Sg * list pid) (vr : variant)
+           (ee : option Z) (endt : Z) (force : bool) (et : Z) (s s' : st Sg U W) 
+           (f' : bool) (et' : Z) (ok : bool) (p : pid) (e : fe U),
+         iter Sg U W poll cond next commit vr ee endt force et s = (s', f', et', ok) ->
+         flook U (frt Sg U W s') p = Some e -> mem p (procs Sg U W s) = true.
+Proof. exact @iter_front_owners. Qed.
+Print Assumptions C02_iter_front_owners.
 
 
 (* ---- non-vacuity: a reachable state of a concrete composite meets the hypotheses ---- *)
